@@ -1242,7 +1242,10 @@ fn req_quoted_string(input: Span) -> IResult<Span, String> {
 }
 
 fn var_list(input: Span) -> IResult<Span, Vec<String>> {
-    separated_list1(tag(","), ident.preceded_by(multispace0))(input)
+    separated_list1(
+        tag(",").preceded_by(multispace0),
+        ident.preceded_by(multispace0),
+    )(input)
 }
 
 fn parse(input: Span) -> IResult<Span, Positioned<InlineOperator>> {
